@@ -210,6 +210,24 @@ class Folder:
                 if r:
                     return r
                 continue
+            if isinstance(s, ast.For) and isinstance(s.target, ast.Name) and not s.orelse:
+                it = self.ev(s.iter, env)
+                n_it = 0
+                stop = None
+                for v_ in it:
+                    n_it += 1
+                    if n_it > 4096:
+                        raise CannotFold('loop too long')
+                    env[s.target.id] = v_
+                    r = self.run_block(s.body, env)
+                    if r and r[0] == 'break':
+                        break
+                    if r and r[0] in ('return', 'raise', 'inline-exit'):
+                        stop = r
+                        break
+                if stop:
+                    return stop
+                continue
             if isinstance(s, ast.Return):
                 return ('return', self.ev(s.value, env) if s.value is not None else None)
             if isinstance(s, ast.Continue):
